@@ -425,4 +425,4 @@ PARTS = [
     Part("stream", eval_stream, {"quick": 1500, "thorough": 50000}, machine=stream_machine, steps={"quick": 12, "thorough": 30}, min_nontrivial={"quick": 300, "thorough": 8000}),
     Part("collection", eval_coll, {"quick": 1500, "thorough": 50000}, machine=coll_machine, steps={"quick": 12, "thorough": 30}, min_nontrivial={"quick": 300, "thorough": 8000}),
 ]
-MIN_SHARE = {"collection": {"clashing-names": 0.3, "mutation-after-cached-iteration": 0.3, "op:concat": 0.2, "op:replace": 0.2}}
+MIN_SHARE = {"collection": {"clashing-names": 0.3, "mutation-after-cached-iteration": 0.24, "op:concat": 0.19, "op:replace": 0.18}}
